@@ -4,6 +4,7 @@
 -/
 import PgmVerif.Proofs.Closure
 import PgmVerif.Proofs.DSep
+import PgmVerif.Proofs.DSepSym
 namespace PgmVerif
 open DG
 
@@ -125,5 +126,24 @@ example : (DG.mk [0, 1, 2] [(0, 2), (1, 2)]).WFG ∧ 0 ∈ (DG.mk [0, 1, 2] [(0,
   intro e he
   simp at he
   rcases he with rfl | rfl <;> decide
+
+theorem dconn_one_way (g : DG) (hg : g.WFG) (hac : Acyclic g.edges) (obs : List Var)
+    (x y : Var) (hx : x ∈ g.nodes) (hy : y ∈ g.nodes) (hxo : x ∉ obs) (hyo : y ∉ obs)
+    (h : ∃ d, (y, d) ∈ g.reach obs x) : ∃ d, (x, d) ∈ g.reach obs y := by
+  obtain ⟨d, h⟩ := h
+  obtain ⟨l, hh, hl, hact, _⟩ := (C08_reach_iff_active_trail g hg hac obs x hx hxo y d).mp h
+  have hne : l ≠ [] := by intro e; subst e; simp at hh
+  have hrev := DSep.activeRev_reverse g obs (g.ancestorsOf obs) l hact
+  obtain ⟨d', hd'⟩ := DSep.arrDir_exists g obs (g.ancestorsOf obs) l.reverse (by simpa using hne) hrev
+  exact ⟨d', (C08_reach_iff_active_trail g hg hac obs y hy hyo x d').mpr
+    ⟨l.reverse, by simpa [List.head?_reverse] using hl, by simpa [List.getLast?_reverse] using hh, hrev, hd'⟩⟩
+
+/-- **d-connection is symmetric**: for unobserved nodes `x`, `y` of any DAG and any observed set, the traversal
+    of `active_trail_nodes` started at `x` reaches `y` iff started at `y` it reaches `x` (an active trail
+    read backwards is active, `Proofs/DSepSym.lean`) -/
+theorem C08_dconnection_symmetric (g : DG) (hg : g.WFG) (hac : Acyclic g.edges) (obs : List Var)
+    (x y : Var) (hx : x ∈ g.nodes) (hy : y ∈ g.nodes) (hxo : x ∉ obs) (hyo : y ∉ obs) :
+    (∃ d, (y, d) ∈ g.reach obs x) ↔ (∃ d, (x, d) ∈ g.reach obs y) :=
+  ⟨dconn_one_way g hg hac obs x y hx hy hxo hyo, dconn_one_way g hg hac obs y x hy hx hyo hxo⟩
 
 end PgmVerif
